@@ -147,3 +147,96 @@ pub fn disp_class(d: usize) -> &'static str {
         _ => "disp>4096",
     }
 }
+
+// ------------------------------------------------------------------------------------
+// Recipes: large inputs described by a short string, so that a violation on a multi-megabyte
+// input has a replayable artefact (the recipe) instead of a truncated hex dump.
+//   segments joined by '+':  zeros:n | fill:b:n | period:k:base:n | two:n | counter16:n |
+//                            noise:n:salt | blank:p:n | index:p:n | ramp:n
+
+pub fn build_recipe(r: &str) -> Vec<u8> {
+    let mut out: Vec<u8> = Vec::new();
+    for seg in r.split('+') {
+        let f: Vec<&str> = seg.split(':').collect();
+        let num = |i: usize| -> usize { f.get(i).and_then(|s| s.parse().ok()).unwrap_or(0) };
+        match f[0] {
+            "zeros" => out.extend(std::iter::repeat(0u8).take(num(1))),
+            "fill" => out.extend(std::iter::repeat(num(1) as u8).take(num(2))),
+            "period" => {
+                let (k, base, n) = (num(1).max(1), num(2), num(3));
+                out.extend((0..n).map(|i| ((i % k) + base) as u8));
+            }
+            "two" => out.extend((0..num(1)).map(|i| if (i / 3) % 2 == 0 { 0xAAu8 } else { 0x55 })),
+            // little-endian 16-bit counter: no 3-byte substring repeats within 128 KiB
+            "counter16" => out.extend((0..num(1)).map(|i| if i % 2 == 0 { ((i / 2) & 0xFF) as u8 } else { ((i / 2) >> 8) as u8 })),
+            "noise" => {
+                let mut x: u64 = 0x9E37_79B9_7F4A_7C15 ^ (num(2) as u64).wrapping_mul(0xD6E8_FEB8_6659_FD93);
+                for _ in 0..num(1) {
+                    x ^= x << 13;
+                    x ^= x >> 7;
+                    x ^= x << 17;
+                    out.push((x >> 32) as u8);
+                }
+            }
+            // records of p bytes: a 4-byte tag, the rest blank
+            "blank" => {
+                let (p, n) = (num(1).max(1), num(2));
+                out.extend((0..n).map(|i| if i % p < 4 { (i % p) as u8 + 1 } else { 0 }));
+            }
+            "index" => {
+                let (p, n) = (num(1).max(1), num(2));
+                out.extend((0..n).map(|i| (i % p) as u8));
+            }
+            "ramp" => out.extend((0..num(1)).map(|i| i as u8)),
+            other => panic!("unknown recipe segment {}", other),
+        }
+    }
+    out
+}
+
+pub fn recipe_input(r: String) -> LzInput {
+    LzInput { family: "recipe", data: build_recipe(&r), desc: r }
+}
+
+/// Large inputs (always described by a recipe). `lz13` selects the codec-specific extras.
+pub fn big_inputs(tier: Tier, lz13: bool) -> Vec<LzInput> {
+    let mut r: Vec<String> = Vec::new();
+    // sizes around 2^20, 2^21 and 2^23 (a limit written with a digit too few, a size read as a
+    // signed 24-bit value ...)
+    for n in [0xF_FFFFusize, 0x10_0000, 0x10_0001, 0x20_0000, 0x7F_FFFF, 0x80_0000, 0x80_0001] {
+        r.push(format!("zeros:{}", n));
+        r.push(format!("period:3:0:{}", n));
+    }
+    // single repeats longer than the largest LZ11 length (65 808)
+    for n in [65_810usize, 65_811, 70_000, 140_000] {
+        r.push(format!("zeros:{}", n));
+        r.push(format!("ramp:40+period:4:200:{}", n - 40));
+    }
+    // long runs of literals (no 3-byte repeat inside the window), odd and even lengths
+    for n in [3_001usize, 10_001, 65_537, 106_001, 106_002, 200_001] {
+        r.push(format!("counter16:{}", n));
+    }
+    // poorly compressible data followed by a long repeat, and the reverse
+    for (a, b) in [(1_000usize, 5_000usize), (70_000, 20_000), (80_000, 9_000)] {
+        r.push(format!("noise:{}:1+zeros:{}", a, b));
+        r.push(format!("zeros:{}+noise:{}:2", b, a));
+    }
+    // just below 16 MiB with a noisy tail (every size field still fits 24 bits)
+    r.push("zeros:16769000+noise:8000:5".to_string());
+    if tier == Tier::Thorough {
+        r.push(format!("zeros:{}", 0xFF_FFFF));
+        r.push(format!("period:3:0:{}", 0xFF_FFFF));
+        r.push("noise:300000:9+zeros:300000".to_string());
+    }
+    let _ = lz13;
+    r.into_iter().map(recipe_input).collect()
+}
+
+/// `Some(bytes)` if `r` is a well-formed recipe
+pub fn build_recipe_checked(r: &str) -> Option<Vec<u8>> {
+    let known = ["zeros", "fill", "period", "two", "counter16", "noise", "blank", "index", "ramp"];
+    if r.is_empty() || !r.split('+').all(|seg| known.contains(&seg.split(':').next().unwrap_or(""))) {
+        return None;
+    }
+    Some(build_recipe(r))
+}
